@@ -38,8 +38,10 @@ func (c *dupImportChecker) WalkFile(f *ast.File) {
 		imports[pkg] = append(imports[pkg], importDcl)
 	}
 
-	for _, importList := range imports {
-		if len(importList) == 1 {
+	// Report the groups in source order (map iteration order is random).
+	for _, importDcl := range f.Imports {
+		importList := imports[importDcl.Path.Value]
+		if len(importList) == 1 || importList[0] != importDcl {
 			continue
 		}
 		c.warn(importList)
